@@ -35,6 +35,27 @@ PYFUNCS = {
 }
 
 
+SPAWN = {'pulled': 0}
+SPAWN_CAP = 300          # an "unbounded" sub-stream gives up after this many items (RuntimeError = budget)
+
+
+def spawn(x):
+    """int -> a LAZY, counted sub-iterable (three items; unbounded for 9): what flatten() is fed when the
+    elements of a stream are themselves streams.  Every item handed out is counted in SPAWN"""
+    def gen():
+        n = 0
+        while x == 9 or n < 3:
+            SPAWN['pulled'] += 1
+            if n >= SPAWN_CAP:
+                raise RuntimeError('reference budget')
+            yield x * 10 + n % 10
+            n += 1
+    return gen()
+
+
+PYFUNCS['spawn'] = spawn
+
+
 def base_iter(source, sub, sentinel):
     f = PYFUNCS[sub] if sub else None
     for t in source:
